@@ -57,12 +57,28 @@ func goType(x ast.Expr) string {
 	return ""
 }
 
+var leanTypeX = map[string]string{"P": "PX", "List P": "List PX", "Poly": "PolyX", "List (List P)": "List (List PX)", "List Poly": "List PolyX",
+	"Bounds": "BoundsX", "List Bounds": "List BoundsX", "Polygonal": "PolygonalX"}
+
 func lt(t string) string {
 	s, ok := leanType[t]
 	if !ok {
 		fail("type %s outside the subset", t)
 	}
+	if xmode {
+		if x, ok := leanTypeX[s]; ok {
+			return x
+		}
+	}
 	return s
+}
+
+// names that differ between the exact rendering (ERat boxes over Rat points) and the XF rendering
+func xn(exact, x string) string {
+	if xmode {
+		return x
+	}
+	return exact
 }
 
 // a function of the loop part
@@ -124,6 +140,9 @@ func (c *lctx) eratExpr(x ast.Expr, ve venv) string {
 		if !ok || ve[id.Name] != "Point" || (t.Sel.Name != "X" && t.Sel.Name != "Y") {
 			fail("coordinate selector outside the subset")
 		}
+		if xmode {
+			return lname(id.Name) + "." + strings.ToLower(t.Sel.Name)
+		}
 		return "(ERat.fin " + lname(id.Name) + "." + strings.ToLower(t.Sel.Name) + ")"
 	case *ast.CallExpr:
 		sel, ok := t.Fun.(*ast.SelectorExpr)
@@ -138,11 +157,11 @@ func (c *lctx) eratExpr(x ast.Expr, ve venv) string {
 		case "Inf":
 			if len(t.Args) == 1 {
 				if bl, ok := t.Args[0].(*ast.BasicLit); ok && bl.Value == "1" {
-					return "ERat.pinf"
+					return xn("ERat.pinf", "XF.pinf")
 				}
 				if u, ok := t.Args[0].(*ast.UnaryExpr); ok && u.Op == token.SUB {
 					if bl, ok := u.X.(*ast.BasicLit); ok && bl.Value == "1" {
-						return "ERat.ninf"
+						return xn("ERat.ninf", "XF.ninf")
 					}
 				}
 			}
@@ -151,7 +170,7 @@ func (c *lctx) eratExpr(x ast.Expr, ve venv) string {
 			if len(t.Args) != 2 {
 				fail("math.%s arity", sel.Sel.Name)
 			}
-			return "(ERat." + strings.ToLower(sel.Sel.Name) + " " + c.eratExpr(t.Args[0], ve) + " " + c.eratExpr(t.Args[1], ve) + ")"
+			return "(" + xn("ERat.", "XF.") + strings.ToLower(sel.Sel.Name) + " " + c.eratExpr(t.Args[0], ve) + " " + c.eratExpr(t.Args[1], ve) + ")"
 		}
 		fail("math.%s outside the subset", sel.Sel.Name)
 	}
@@ -234,7 +253,7 @@ func (c *lctx) expr(x ast.Expr, ve venv) (string, string, bool) {
 				}
 				fs = append(fs, xs, ys)
 			}
-			return "(⟨" + strings.Join(fs, ", ") + "⟩ : Bounds)", "*Bounds", false
+			return "(⟨" + strings.Join(fs, ", ") + "⟩ : " + lt("*Bounds") + ")", "*Bounds", false
 		}
 		fail("unary operator %s", t.Op)
 	case *ast.BinaryExpr:
@@ -347,11 +366,11 @@ func (c *lctx) call(t *ast.CallExpr, ve venv) (string, string, bool) {
 		m = m || m2
 		switch {
 		case fn.Sel.Name == "Polygons" && rty == "Polygonal" && len(as) == 0:
-			return "(Polygonal.polygons " + rs + ")", "[]Polygon", m
+			return "(" + lt("Polygonal") + ".polygons " + rs + ")", "[]Polygon", m
 		case fn.Sel.Name == "Equals" && rty == "Point" && len(as) == 1 && ts[0] == "Point":
-			return "(Gen.Point_Equals " + rs + " " + as[0] + ")", "bool", m
+			return "(" + xn("Gen", "GenX") + ".Point_Equals " + rs + " " + as[0] + ")", "bool", m
 		case fn.Sel.Name == "Overlaps" && rty == "*Bounds" && len(as) == 1 && ts[0] == "*Bounds":
-			return "(Gen.Bounds_Overlaps " + rs + " " + as[0] + ")", "bool", m
+			return "(" + xn("Gen", "GenX") + ".Bounds_Overlaps " + rs + " " + as[0] + ")", "bool", m
 		}
 		key := rty + "." + fn.Sel.Name
 		if rty == "Path" { // methods of Path are not used; LineString.Within is called on a LineString only
@@ -626,7 +645,7 @@ func (c *lctx) stmts(ss []ast.Stmt, ve venv, ind string, b bctx) string {
 					}
 					ve2 := ve.copy()
 					ve2[lv.Name] = "[]*Bounds"
-					return ind + "let " + lname(lv.Name) + " := Go.make " + n + " (default : Bounds)\n" + c.stmts(rest, ve2, ind, b)
+					return ind + "let " + lname(lv.Name) + " := Go.make " + n + " (default : " + lt("*Bounds") + ")\n" + c.stmts(rest, ve2, ind, b)
 				}
 			}
 			s, ty, _ := c.expr(t.Rhs[0], ve)
@@ -886,8 +905,12 @@ func extractLoops(repo string) string {
 	files := map[string]*ast.File{}
 	funcs := map[string]*lfun{}
 	var b strings.Builder
-	b.WriteString("/-! the loops: within.go pointInPolygon(al), area.go ringBounds, bounds.go NewBounds(Point)/extendPoint(s), the Within receivers;\n`os`/`ray` stand for the callees pointOnSegment / rayIntersectsSegment -/\nnamespace GeomV.C02.GenL\nopen GeomV GeomV.C02\n\n")
+	ns := xn("GenL", "GenXL")
+	b.WriteString("/-! the loops: within.go pointInPolygon(al), area.go ringBounds, bounds.go NewBounds(Point)/extendPoint(s), the Within receivers;\n`os`/`ray` stand for the callees pointOnSegment / rayIntersectsSegment -/\nnamespace GeomV.C02." + ns + "\nopen GeomV GeomV.C02\n\n")
 	for _, w := range loopFuncs {
+		if xmode && strings.HasSuffix(w.lean, "_Within") { // reflect.DeepEqual compares floats with ==: receivers stay outside the XF rendering
+			continue
+		}
 		f, ok := files[w.file]
 		if !ok {
 			var err error
@@ -966,7 +989,7 @@ func extractLoops(repo string) string {
 		}
 		dec := ""
 		if lf.usesDec {
-			dec = "(os ray : P → P → P → Bool) "
+			dec = "(os ray : " + lt("Point") + " → " + lt("Point") + " → " + lt("Point") + " → Bool) "
 		}
 		rn := w.name
 		if w.recv != "" {
@@ -979,6 +1002,6 @@ func extractLoops(repo string) string {
 		}
 		funcs[key] = lf
 	}
-	b.WriteString("end GeomV.C02.GenL\n")
+	b.WriteString("end GeomV.C02." + ns + "\n")
 	return b.String()
 }
